@@ -265,7 +265,7 @@ func runC18(c *Ctx) {
 		}
 		// pad string
 		pad := sh(call.Common().Args[0])
-		c.check(pad == `phi(" " | phi(" " | "0"))`, "R3", key+" pad", p.InstrPos(call), `" " or "0"`, "the pad string is "+pad)
+		c.check(pad == `phi(" " | "0")`, "R3", key+" pad", p.InstrPos(call), `" " or "0"`, "the pad string is "+pad)
 	}
 	c.check(nRep == 4, "R3", "repeat-count", p.Pos(pf.Pos()), "4 padding sites (2 directives x 2 signs)", fmt.Sprintf("%d padding sites found, 4 expected", nRep))
 	// pad "0" exactly under numStr[0] == '0'
